@@ -375,6 +375,11 @@ pub fn replay(args: &[String]) -> anyhow::Result<()> {
     Ok(())
 }
 
+/// One second more than the clock reads: `now - t_far()` is -1, the top of the unsigned timestamp field.
+fn t_far() -> i64 {
+    rc::unix_now() as i64 + 1
+}
+
 /// impl -> spec: a random walk of presentations against one listener; one NDJSON event each.
 pub fn record(args: &[String]) -> anyhow::Result<()> {
     util::quiet_panics();
@@ -389,7 +394,8 @@ pub fn record(args: &[String]) -> anyhow::Result<()> {
     let listener = sv::listener(&sut::ss_server_cfg(c, users))?;
     let start = std::time::Instant::now();
     let mut pool: Vec<(Vec<u8>, i64, u8)> = Vec::new(); // request bytes, dts at creation, type
-    let dts_choices = [-40i64, -31, -30, -29, -5, 0, 0, 0, 7, 29, 30, 31, 45];
+    // the far ones: decades ahead, and far enough back that the unsigned field wraps round to its top
+    let dts_choices = [-40i64, -31, -30, -29, -5, 0, 0, 0, 7, 29, 30, 31, 45, 2_000_000_000, -2_000_000_000, -(t_far())];
     let mut n = 0;
     writeln!(w, "{}", json!({"ev":"Header","salt":0,"dts":0,"typ":0,"ok":false,"cipher":c.name(),"users":users}))?;
     while n < events {
